@@ -12,6 +12,16 @@ def hook_commits():
         return []
 
 CHECKS = {
+ "C08": dict(
+    category="exploration", design_ref="DESIGN.md §4 C08",
+    technique="single global event log (apply handlers + recording connection + listeners, sequence number and goroutine id each) compared with the log computed from the script; contiguity checker for message blocks per group under concurrency",
+    text="Scripts of 1-6 event calls (valid and invalid change/add/remove/create/delete/custom/reaccess, Timeout, reply) run inside call handlers and With callbacks of a real Service whose apply handlers are present/absent in random subsets with dynamic outcome ok/fail/nothing-changed and whose listeners are registered directly, through Handler.Listeners, on mounted muxes, through the parent, several per pattern; the merged log must equal apply -> publish -> listeners per call on the calling goroutine, nothing after failures/no-ops/invalid calls, listener arguments must carry the new values and the values returned by apply, and messages must be in program order. A concurrent batch (8 producers, 3 groups, also under -race) checks that message blocks of callbacks of one group never interleave.",
+    note="Event calls in With callbacks are wrapped in recover by the harness; in handlers a panicking event call ends the script."),
+ "C09": dict(
+    category="exploration", design_ref="DESIGN.md §4 C09",
+    technique="subscription recorder on a NATS-rule-enforcing connection + exact coverage/redundancy decision by subject enumeration over configuration tokens + reset-payload reference + differential run and restart on an embedded nats-server",
+    text="Service configurations over names {'', svc, a.b}, nil or explicit ownership lists with overlapping/nested/duplicated/wildcarded entries, all 31 subsets of handler kinds and three queue-group settings are served on the recording connection: every subscribe subject must be valid, every concrete request subject of every owned pattern and answered request type must be matched by a subscription, no subscription's subject set may be included in another's (both decided by enumerating subjects over the configuration's tokens plus a fresh one), system.reset on start and ResetAll must list the documented ownership, and a subject under a single owned pattern must be delivered exactly once. On an embedded NATS server sampled requests must get exactly one response and a server restart must produce a correct reset on reconnect.",
+    note="Explicit ownership entries are valid patterns; reset payloads compared as sets; configurations with nothing to serve excluded."),
  "C15": dict(
     category="exploration", design_ref="DESIGN.md §4 C15",
     technique="wire-level exactly-once checker on an embedded NATS server + callback log with sequence numbers + goroutine-profile and subscription-count leak probes + directed hook gates around expiry",
